@@ -90,6 +90,26 @@ EntryMeaning(e) ==
 (* are layout.                                                             *)
 UnitMeaning(u) == [present |-> u.present, ver |-> u.ver, fmt |-> u.fmt, asz |-> u.asz, nentries |-> u.nentries]
 
+(* A file-index attribute (DW_AT_decl_file, DW_AT_call_file, ..., any form) *)
+(* means the file entry it resolves to: [k = "file", found, dir, name,      *)
+(* unresolved].  An index that names no entry (no line program, or out of   *)
+(* the table) keeps its NUMBER in `unresolved`: it must be carried over or  *)
+(* refused, it is not "no file" (index 0 of DWARF <= 4).                    *)
+
+(* Re-targeted conversion: the stepwise API lets the caller re-encode a unit *)
+(* and its line program for another DWARF version (Unit::set_encoding,       *)
+(* read_line_program(Some(encoding), ..)).  The version changes on purpose;  *)
+(* file and directory tables are renumbered (indices are 1-based up to       *)
+(* version 4, 0-based from 5) and gain or lose the index-0 entries and the   *)
+(* fields only one version can hold.  What has to be preserved (or refused): *)
+(* every row keeps its resolved file (path and directory) and all its other  *)
+(* registers, every file-index attribute keeps the file it resolves to.      *)
+RetargetUnitMeaning(u) == [present |-> u.present, fmt |-> u.fmt, asz |-> u.asz, nentries |-> u.nentries]
+FileAttrs(e) == {j \in DOMAIN e.attrs : e.attrs[j].v.k = "file"}
+RetargetEntryMeaning(e) ==
+    [present |-> e.present, depth |-> e.depth, tag |-> e.tag,
+     files |-> {AttrMeaning(e.attrs[j]) : j \in FileAttrs(e)}]
+
 (*------------------------------------------------------------------------*)
 (* 2. Line programs                                                        *)
 (*------------------------------------------------------------------------*)
